@@ -676,9 +676,72 @@ func runRetry(rep *kit.Report, text string, scripts []script, bl int, chunked, a
 	}
 }
 
+// isolation: the choices a proxy block makes do not depend on the traffic of another block of the same
+// policy (differential: every interleaving of m calls to block A and m calls to block B yields the
+// sequences A and B produce when called alone)
+func isolation(rep *kit.Report) {
+	if !rep.Mine(0) {
+		return
+	}
+	const m = 4
+	for _, pol := range []string{"round_robin", "first", "ip_hash", "uri_hash", "header X-Key"} {
+		for n := 2; n <= 3; n++ {
+			var a, b []string
+			for i := 0; i < n; i++ {
+				a = append(a, fmt.Sprintf("http://a%d.test", i))
+				b = append(b, fmt.Sprintf("http://b%d.test", i))
+			}
+			text := fmt.Sprintf("proxy /a %s {\n policy %s\n}\nproxy /b %s {\n policy %s\n}", strings.Join(a, " "), pol, strings.Join(b, " "), pol)
+			reqs := make([]*http.Request, m)
+			for k := range reqs {
+				reqs[k] = kit.MustReq(kit.Get("GET", fmt.Sprintf("/p%d", k), "x", fmt.Sprintf("X-Key: k%d", k)))
+				reqs[k].RemoteAddr = fmt.Sprintf("10.0.0.%d:1234", k+1)
+			}
+			run := func(pattern []int) (seq [2][]string) {
+				ups, err := upstreams(text)
+				if err != nil || len(ups) != 2 {
+					rep.Broken("isolation: upstream parse: %v (%d upstreams)", err, len(ups))
+				}
+				cnt := [2]int{}
+				for _, w := range pattern {
+					h := ups[w].Select(reqs[cnt[w]])
+					cnt[w]++
+					rep.Eval(1)
+					name := "nil"
+					if h != nil {
+						name = h.Name
+					}
+					seq[w] = append(seq[w], name)
+				}
+				return
+			}
+			aloneA := run([]int{0, 0, 0, 0})[0]
+			aloneB := run([]int{1, 1, 1, 1})[1]
+			for mask := 0; mask < 1<<(2*m); mask++ {
+				var pattern []int
+				ones := 0
+				for k := 0; k < 2*m; k++ {
+					w := (mask >> k) & 1
+					ones += w
+					pattern = append(pattern, w)
+				}
+				if ones != m {
+					continue
+				}
+				got := run(pattern)
+				if fmt.Sprint(got[0]) != fmt.Sprint(aloneA) || fmt.Sprint(got[1]) != fmt.Sprint(aloneB) {
+					rep.Violation("C05/policy/blocks-interfere/"+strings.Fields(pol)[0], fmt.Sprintf("two `policy %s` blocks called in the order %v: block A chose %v (alone %v), block B chose %v (alone %v)", pol, pattern, got[0], aloneA, got[1], aloneB),
+						polCase{pol, nil, fmt.Sprint(pattern), fmt.Sprint(got), "two proxy blocks with " + fmt.Sprint(n) + " backends each"})
+				}
+				rep.Class("isolation/" + strings.Fields(pol)[0])
+			}
+		}
+	}
+}
+
 func main() {
 	rep := kit.NewReport("C05", "model_checking",
-		"policies: every pool of 1..N backends x every state vector over {up, partly, unhealthy, failed, full} x 7 policies x 16 keys (residue-covering), math/rand draws enumerated; retry: every assignment of {ok, refuse, fail-after-reading} to 1..3 backends x 7 policies x try_duration x max_fails x base path x body {0,1,70000} x framing, all schedules of the request thread and its timer goroutines up to 1 preemption under a virtual clock; distinct_nontrivial = outcome classes")
+		"policies: two blocks of one policy under every interleaving of 4+4 selections choose as they do alone; every pool of 1..N backends x every state vector over {up, partly, unhealthy, failed, full} x 7 policies x 16 keys (residue-covering), math/rand draws enumerated; retry: every assignment of {ok, refuse, fail-after-reading} to 1..3 backends x 7 policies x try_duration x max_fails x base path x body {0,1,70000} x framing, all schedules of the request thread and its timer goroutines up to 1 preemption under a virtual clock; distinct_nontrivial = outcome classes")
 	kit.Init()
 	if !rep.IsWorker() {
 		rep.Assume("rand.Int() is modelled as a choice over {0,1}: the policies only test x % count == 0")
@@ -689,7 +752,10 @@ func main() {
 		rep.Finish()
 	}
 	runtime.GOMAXPROCS(1)
-	policies(rep)
-	retries(rep)
+	rep.Guard(func() {
+		policies(rep)
+		isolation(rep)
+		retries(rep)
+	})
 	rep.Finish()
 }
